@@ -199,7 +199,7 @@ package bsonkit
 //@   tags C15 C03
 //@   opt loopframe = on
 //@   modifies nothing
-//@   locals set
+//@   locals set doc
 //@   ensures [C15,C03 name=fresh-wf] result != nil && fresh(result) && fresh(result.Index) && wfSet(result) && ownSet(result)
 //@   ensures [C15,C03 name=parts-exist] allocated(result.Index) && (cap(result.List) == 0 || (fresh(result.List) && allocated(result.List.base)))
 //@   ensures [C15 name=empty-for-nil] imp(len(list) == 0, len(result.List) == 0 && all(d, Ref, !has(result.Index, d)))
@@ -412,7 +412,7 @@ package bsonkit
 //@   tags C20 C07 C15
 //@   requires i != nil
 //@   modifies nothing
-//@   locals tuples values next nt
+//@   locals tuples col v values a ok next t val nt
 //@   ensures [C20,C07 name=at-least-one-tuple] len(result) >= 1
 //@   ensures [C20,C07 name=tuple-width] forall(k, 0, len(result), len(result[k]) == len(i.columns))
 //@   loop 0 invariant len(tuples) >= 1 && forall(k, 0, len(tuples), len(tuples[k]) == rangeindex + 1)
@@ -453,7 +453,7 @@ package bsonkit
 //@   uses btree
 //@   requires i != nil && i.btree != nil
 //@   modifies ghost.tree
-//@   locals tuples
+//@   locals tuples ok t
 //@   ensures [C07,C15 name=rejected-unchanged] imp(!result, ghost.tree == old(ghost.tree))
 //@   ensures [C15 name=all-tuples-stored] imp(result, forall(j, 0, len(tuples), any(e, S_bsonkit_indexEntry, ghost.tree[i.btree][e] && spec.entryEqv(i.btree, e, entryOf(tuples[j], doc)))))
 //@   ensures [C15 name=only-this-document] all(e, S_bsonkit_indexEntry, imp(ghost.tree[i.btree][e] && !old(ghost.tree)[i.btree][e], any(j, Int, 0 <= j && j < len(tuples) && e == entryOf(tuples[j], doc))))
@@ -471,7 +471,7 @@ package bsonkit
 //@   uses btree
 //@   requires i != nil && i.btree != nil
 //@   modifies ghost.tree
-//@   locals tuples
+//@   locals tuples ok t
 //@   ensures [C15 name=rejected-unchanged] imp(!result, ghost.tree == old(ghost.tree))
 //@   ensures [C15 name=all-tuples-deleted] imp(result, forall(j, 0, len(tuples), all(e, S_bsonkit_indexEntry, imp(ghost.tree[i.btree][e], !spec.entryEqv(i.btree, e, entryOf(tuples[j], doc))))))
 //@   ensures [C15 name=only-removes] all(e, S_bsonkit_indexEntry, imp(ghost.tree[i.btree][e], old(ghost.tree)[i.btree][e]))
@@ -503,7 +503,7 @@ package bsonkit
 //@   tags C13
 //@   uses order wf
 //@   opt loopframe = on
-//@   locals distincts prevValue value
+//@   locals result doc v a ok distincts prevValue value
 //@   ensures [C13 name=no-equal-neighbours] imp(distinct, forall(k, 1, len(result), imp(spec.witness(k), spec.cmp(result[k - 1], result[k]) != 0)))
 //@   loop 1 invariant imp(len(distincts) > 0, prevValue == distincts[len(distincts) - 1])
 //@   loop 1 invariant forall(k, 1, len(distincts), imp(spec.witness(k), spec.cmp(distincts[k - 1], distincts[k]) != 0))
